@@ -85,6 +85,9 @@ func (s *Stats) AddSteps(n int)             { s.Steps += int64(n) }
 // it distinct (script shape + schedule/fault trace); nontrivial follows the engine's
 // stated rule.
 func (s *Stats) Case(shape uint64, nontrivial bool) {
+	if hashLog != nil {
+		fmt.Fprintf(hashLog, "%x\n", shape)
+	}
 	if !nontrivial {
 		return
 	}
@@ -204,6 +207,21 @@ func (e Engine[C]) weight() int {
 	}
 	return e.Weight
 }
+
+// hashLog, when VERIF_HASHLOG names a file, receives one line per executed case with the
+// case's shape/trace hash (determinism self-test: two runs of the same seed must produce
+// identical files).
+var hashLog = func() *os.File {
+	p := os.Getenv("VERIF_HASHLOG")
+	if p == "" {
+		return nil
+	}
+	f, err := os.OpenFile(p, os.O_CREATE|os.O_WRONLY|os.O_TRUNC, 0o644)
+	if err != nil {
+		return nil
+	}
+	return f
+}()
 
 // collectDir, when set through VERIF_COLLECT, turns failures into a signature histogram.
 var collectDir = os.Getenv("VERIF_COLLECT")
